@@ -13,11 +13,17 @@ RULE = ("all grammars of depth <= 2 over an 8-leaf pool x all strings of length 
         "permuted and repeated operand inputs; (v) the extracted model of Each.parseImpl vs the implementation (outcome class, location, message, "
         "tokens, names) on that family and on a second one (random deep grammars with '&' nodes, results names, error stops, operands that can "
         "match empty, the same operand twice, Opt(x) & x, named repetitions), and the Coq reading `peg` (case peg_each) vs the implementation on those "
-        "of them that are in the reference class; non-trivial = grammar with >= 3 nodes and non-empty input")
+        "of them that are in the reference class; (vi) a family of repetitions with stop_on and of SkipTo (plain / include=True) over token, '|', "
+        "lookahead and sequence targets, in sequences and repetitions, with inputs that have blanks before the target / the stop expression: model, "
+        "`peg` and implementation; (vii) the documented meaning of SkipTo's fail_on on the implementation; "
+        "non-trivial = grammar with >= 3 nodes and non-empty input")
 TRUSTED = pcommon.TRUSTED_PARSE + [
     "the reading `peg` (coq/Model/Peg.v) is the formal statement of the property; `in_class` delimits what is proved "
-    "(Or and Combine over a content that yields scalar tokens only are in the proved class; Combine over Group / Each / Forward "
-    "and stop_on are compared with the reference by correspondence only; SkipTo only model-vs-implementation)",
+    "(Or, Combine over a content that yields scalar tokens only, repetition with stop_on and SkipTo without fail_on / private ignore "
+    "expression over a target whose head component does not skip whitespace are in the proved class; Combine over Group / Each / Forward "
+    "is compared with the reference by correspondence only; SkipTo over other targets, with fail_on or ignore= only model-vs-implementation; "
+    "the reading of SkipTo tries the target at each position without the target's own leading whitespace skip (`nopre`), as "
+    "SkipTo.parseImpl calls it with callPreParse=False)",
     "Each ('&'): the model (Model/Core.v each_impl) takes the children's mayReturnEmpty flags and the `==` classes of the operands "
     "(ParserElement.__eq__ is `vars(self) == vars(other)`) from the dump (tools/harness/dump.py each_info); `in_class` contains the Each nodes none of "
     "whose required operands may return empty (for the others the implementation violates the reading: C01_each_once_refuted); Each with results "
@@ -251,6 +257,55 @@ def each_nullable_operand(ctx):
                           {"kind": "each-nullable"})
 
 
+def stop_skip_family():
+    """(vi) repetitions with stop_on and SkipTo (plain / include=True): targets / stop expressions that are tokens, '|', a
+    lookahead, a CharsNotIn (does not skip whitespace), a sequence (outside the proved class when its first element skips);
+    inputs with blanks in front of the target / stop expression and without any match"""
+    W_, C_, NI = ("word", "ab"), ("lit", ","), ("notin", ", ")
+    targets = [C_, W_, ("mf", C_, ("lit", "b")), ("or", ("lit", "ab"), ("lit", "a")), ("fb", C_), NI, ("and", ("lit", "a"), ("lit", "b")),
+               ("and", NI, C_), ("group", C_), ("stringend",), ("lineend",), ("star", C_), ("opt", C_)]
+    inputs = ["x ,", " x  , y", "ab,", "  ", "", "x a b ,", "x  ab", ",", "x\n,", "xx", "a ,b, ", " ,"]
+    E = [("parse", False), ("peg",)]
+    groups = []
+    for tg in targets:
+        for k in ("skipto", "skiptoi"):
+            groups.append(((k, tg), {}, inputs, [("none",)], E))
+            groups.append((("and", (k, tg), C_), {}, inputs, [("none",)], E))
+            groups.append((("and", W_, (k, tg)), {}, inputs, [("none",)], E))
+            groups.append((("star", ("and", (k, tg), C_)), {}, inputs, [("none",)], E))
+            groups.append((("group", ("and", ("opt", W_), (k, tg))), {}, inputs, [("none",)], E))
+    stops = [C_, ("lit", "b"), W_, ("mf", C_, ("lit", "b")), ("not", ("lit", "a")), ("and", ("lit", "a"), C_), ("stringend",), ("empty",)]
+    bodies = [("lit", "a"), W_, ("notin", ","), ("and", ("lit", "a"), ("opt", ("lit", "b"))), ("mf", ("lit", "a"), ("lit", "b")), ("group", W_)]
+    sinputs = ["a a b", "a a , a", "ab ba , b", "a  ,", "b", ", a", "a a", "", "a ,a, ", "aab a, b"]
+    for st in stops:
+        for b in bodies:
+            for k in ("starstop", "plusstop"):
+                groups.append(((k, b, st), {}, sinputs, [("none",)], E))
+                groups.append((("and", (k, b, st), ("opt", C_)), {}, sinputs, [("none",)], E))
+                groups.append((("combine", ("and", (k, b, st), ("opt", C_))), {}, sinputs, [("none",)], E))
+    return groups
+
+
+def skipto_fail_on(ctx):
+    """F-01b: SkipTo's documentation says of fail_on: "if found before the target expression is found, the SkipTo is not a match";
+    SkipTo.parseImpl leaves its scan loop with `break` when fail_on matches, which skips the `else:` clause that raises: the SkipTo
+    succeeds with the text skipped so far (closed Coq witness: Props/C01.v C01_skipto_fail_on_refuted)"""
+    import pyparsing as pp
+    cases = [("SkipTo(',', fail_on='a') on 'ba,'", lambda: pp.SkipTo(",", fail_on="a").parse_string("ba,").as_list()),
+             ("SkipTo(Word('xy'), fail_on=Literal(';')) on 'q ; xy'", lambda: pp.SkipTo(pp.Word("xy"), fail_on=pp.Literal(";")).parse_string("q ; xy").as_list())]
+    for name, f in cases:
+        try:
+            got = f()
+        except pp.ParseException:
+            got = "ParseException"
+        except pp.ParseBaseException as e:
+            got = type(e).__name__
+        ctx.case("skipto-fail-on:" + name, True, True)
+        if got != "ParseException":
+            ctx.violation("skipto:fail_on-match-does-not-fail", "%s gives %r: fail_on matched before the target was found, yet the SkipTo matches" % (name, got),
+                          {"kind": "skipto-fail-on"})
+
+
 def each_impl(g, inp):
     import pyparsing as pp
     from tools.harness import build
@@ -281,9 +336,11 @@ def correspond(ctx):
         modes=[("none",)], entries=[("parse", False), ("peg",)], inputs_per=5,
         enum_depth=2, enum_inputs=gen.enum_inputs(2 if not ctx.thorough else 3, "ab, ") + ["a b", "(a)", "ab ab", "((a) b)", "a,b"])
     groups += whitespace_family()
+    groups += stop_skip_family()
     recs = run(ctx, groups)
     each_family(ctx)
     each_nullable_operand(ctx)
+    skipto_fail_on(ctx)
     for r in [x for x in recs if x["entry"][0] == "parse"][200:203]:
         ctx.sample({"grammar": r["g"], "input": r["inp"], "impl": peg_of_real(r["real"])})
 
@@ -321,6 +378,13 @@ def replay(ctx, obj):
         c2 = vlib.Ctx(PROP, "quick", 0)
         c2.known = {}
         each_nullable_operand(c2)
+        for v in c2.violations:
+            print(v["what"])
+        return not c2.violations
+    if r.get("kind") == "skipto-fail-on":
+        c2 = vlib.Ctx(PROP, "quick", 0)
+        c2.known = {}
+        skipto_fail_on(c2)
         for v in c2.violations:
             print(v["what"])
         return not c2.violations
